@@ -1281,6 +1281,17 @@ func TestVerifC03(t *testing.T) {
 	oldReader, oldBatch := crand.Reader, writeBatchSize
 	defer func() { crand.Reader, writeBatchSize = oldReader, oldBatch }()
 
+	var replay c03Scenario
+	if r.ReplayInput(&replay) {
+		// one scenario only; every group must hold at least one case
+		g := r.Group("hist00", c03Header, "case", "mismatches")
+		draws := r.Group("draw00", c03Header, "draw_case", "draw_mismatches")
+		draws.Case(zv.Tuple(zv.Z(1), zv.Z(0), zv.Bytes(nil), c03Coords(nil)), map[string]any{"w": 1, "count": 0}, "")
+		w := c03RunScripted(r, g, draws, &replay)
+		r.Set("replay_violations", w.nViol)
+		return
+	}
+
 	// Coq spends its time parsing the case terms (about 10 KB/s), so the histories are spread over many small groups: the
 	// driver evaluates the groups' files in parallel.
 	ng := r.N(12, 120)
@@ -1296,26 +1307,19 @@ func TestVerifC03(t *testing.T) {
 	}
 	draws := drawGroups[0]
 
-	var replay c03Scenario
-	if r.ReplayInput(&replay) {
-		w := c03RunScripted(r, g, draws, &replay)
-		r.Set("replay_violations", w.nViol)
-		return
-	}
-
 	for _, sc := range c03FixedScenarios() {
 		c03RunScripted(r, g, draws, sc)
 	}
 	c03Demo(r, g, draws)
 
-	n := r.N(720, 14400)
+	n := r.N(600, 9600)
 	for i := 0; i < n; i++ {
 		c03RunGenerated(r, hist[i%ng], drawGroups[i%nd0], r.Rand().Fork(uint64(i)), i)
 	}
 
 	// plain draws through the scripted reader: every width up to 64 (incl. non powers of two: the rejection loop of rand.Int)
 	hits := map[int][]int{} // small widths: how often each cell of the square was drawn
-	nd := r.N(300, 6000)
+	nd := r.N(300, 4000)
 	rng := r.Rand().Fork(1 << 40)
 	rd := &c03Reader{rng: zv.NewRand(rng.U64())}
 	crand.Reader = rd
